@@ -25,6 +25,7 @@ FORBIDDEN_CALLS = re.compile(
     r"|^std::fs::(write|remove_file|remove_dir|remove_dir_all|rename|create_dir|create_dir_all|copy)$"
     r"|^std::fs::File::(create|create_new)$|^std::fs::OpenOptions::(write|append|create|truncate)$"
     r"|::Registration::<R>::write$"
+    r"|^std::thread::local::LocalKey::<.*>::(with|try_with|with_borrow|with_borrow_mut|set|get|take|replace)$"
 )
 
 
@@ -119,7 +120,37 @@ def run(ctx):
         for c in f.calls:
             if FORBIDDEN_CALLS.search(c.best):
                 n_bad += 1
-                ctx.ob("R1", "%s called in %s" % (c.best, fid), False, "producer-reachable code performs a process-global / unsynchronised effect", where=f.loc(c.line))
+                ctx.ob("R1", "%s called in %s" % (c.best, fid), False, "producer-reachable code performs a process-global / unsynchronised effect or keeps per-thread state (thread_local!): what one file leaves behind can influence the files processed after it", where=f.loc(c.line))
+    # persistent per-thread / interior-mutable statics: state that survives from one file to the next
+    INTERIOR = re.compile(r"std::thread::local::LocalKey|Mutex<|RwLock<|RefCell<|core::cell::Cell<|OnceCell<|OnceLock<|LazyLock<|LazyCell<|core::sync::atomic::Atomic|UnsafeCell<")
+    persistent = {k for k, v in prog.statics.items() if INTERIOR.search(v.get("ty", "")) and not k.startswith(("ast_grep_napi", "ast_grep_py"))}
+    ctx.extra["interior_mutable_statics"] = sorted(persistent)
+    for fid in sorted(P):
+        f = prog.fns[fid]
+        seen_s = set()
+        for b in f.blocks:
+            ops = []
+            for st in b["s"]:
+                if st[0] == "A":
+                    rv = st[2]
+                    if rv[0] in ("use", "rep"):
+                        ops.append((rv[1], st[3]))
+                    elif rv[0] == "cast":
+                        ops.append((rv[2], st[3]))
+                    elif rv[0] == "tls":
+                        if rv[1] not in seen_s:
+                            seen_s.add(rv[1])
+                            n_bad += 1
+                            ctx.ob("R1", "thread-local %s used in %s" % (rv[1], fid), False, "producer-reachable code keeps per-thread state (`thread_local!`): what one file leaves behind is seen by the next file processed on the same thread, so results depend on which thread gets which file", where=f.loc(st[3]))
+            t = b["t"]
+            if t[0] == "call":
+                ops += [(a, t[6]) for a in t[2]]
+            for o, line in ops:
+                if o[0] == "k" and o[1].get("static") in persistent and o[1]["static"] not in seen_s:
+                    seen_s.add(o[1]["static"])
+                    n_bad += 1
+                    ctx.ob("R1", "persistent static %s used in %s" % (o[1]["static"], fid), False,
+                           "producer-reachable code uses a thread-local / interior-mutable static (%s): state survives from one file to the next, so the findings of a file can depend on the files processed before it on the same thread" % prog.statics[o[1]["static"]]["ty"][:80], where=f.loc(line))
     ctx.ob("R1", "producer-reachable code is free of shared writes", n_bad == 0, "%d functions reachable from %d producer impls and the walker closure: %d forbidden effects; mutable statics only read: %s" % (len(P), len(roots), n_bad, {k: len(v) for k, v in reads.items()}))
     # allowed shared effects are the enumerated ones: atomics on the worker, channel send
     atom = sorted({c.best for fid in P for c in prog.fns[fid].calls if "atomic::Atomic" in c.best})
